@@ -975,6 +975,115 @@ def copydepth_stream(ctx, res, n):
                 res.disagree("C17.copydepth", case, impl=obs, model=r.get("ok", r))
 
 
+def queries_and_inner_sharing_stream(ctx, res):
+    """(a) queries on a typed list of config-type items that are EQUAL by content: `index` (with and without bounds), `count`, `in`,
+    `remove` answer what the built-in list of the same items answers; (b) typed dicts held INSIDE typed dicts / lists are stored as
+    they are: an alias made by the application (`outer['b'] = outer['a']`, `rows.append(rows[0])`) stays an alias, as with the
+    built-ins; (c) an `AnyField(validator=...)` as key or value field normalises through every dict operation"""
+    import cincoconfig as cc
+    # (a)
+    pt = cc.Schema()
+    pt.x = cc.IntField(default=0)
+    pt.y = cc.IntField(default=0)
+    P_ = cc.make_type(pt, "EqPoint")
+    s = cc.Schema()
+    s.pts = cc.ListField(P_, default=lambda: [])
+    cfg = s()
+    first, second, third, stranger = P_(x=1, y=1), P_(x=1, y=1), P_(x=2, y=2), P_(x=1, y=1)
+    cfg.pts = [third, first, second]
+    typed = cfg.pts
+    builtin = [third, first, second]
+    probes = [("index(second)", lambda l: l.index(second)), ("index(second, 0, 2)", lambda l: l.index(second, 0, 2)), ("index(second, 2)", lambda l: l.index(second, 2)),
+              ("index(equal stranger)", lambda l: l.index(stranger)), ("count(first)", lambda l: l.count(first)), ("stranger in l", lambda l: stranger in l),
+              ("index(unequal)", lambda l: l.index(P_(x=9)))]
+    for label, q in probes:
+        res.case(stable(["equal-items", label]), kind="queries:equal-items")
+
+        def run_q(l):
+            try:
+                return ("ok", q(l))
+            except Exception as e:  # noqa
+                return ("raises", type(e).__name__)
+        a, b = run_q(typed), run_q(builtin)
+        if a != b:
+            res.violate("C17:list-differs:query", "a query on a typed list of content-equal config-type items does not answer what the built-in list of the same items answers",
+                        {"stream": "queries", "query": label, "typed": list(a), "builtin": list(b)})
+    try:
+        typed.remove(second)
+        builtin.remove(second)
+        if [id(x) for x in typed] != [id(x) for x in builtin]:
+            res.violate("C17:list-differs:query", "remove(item) took out another position than the built-in list does", {"stream": "queries", "query": "remove(second)"})
+    except Exception as e:  # noqa
+        res.violate("C17:list-differs:query", "remove(item) raised %s" % type(e).__name__, {"stream": "queries", "query": "remove(second)"})
+    # (b)
+    s = cc.Schema()
+    s.outer = cc.DictField(cc.StringField(), cc.DictField(cc.StringField(), cc.IntField()), default=dict)
+    s.rows = cc.ListField(cc.DictField(cc.StringField(), cc.IntField()), default=lambda: [])
+    s.grid = cc.ListField(cc.ListField(cc.IntField()), default=lambda: [])
+    cfg = s()
+    cfg.outer = {"admin": {"alice": 1}}
+    cfg.rows = [{"a": 1}, {"b": 2}]
+    cfg.grid = [[1], [2]]
+    ref = {"outer": {"admin": {"alice": 1}}, "rows": [{"a": 1}, {"b": 2}], "grid": [[1], [2]]}
+    steps = [("outer['staff'] = outer['admin']", lambda c: c["outer"].__setitem__("staff", c["outer"]["admin"])), ("outer['admin']['bob'] = 2", lambda c: c["outer"]["admin"].__setitem__("bob", 2)),
+             ("rows.append(rows[0])", lambda c: c["rows"].append(c["rows"][0])), ("rows[0]['z'] = 26", lambda c: c["rows"][0].__setitem__("z", 26)),
+             ("rows[1] |= {'c': 3}", lambda c: c["rows"].__setitem__(1, c["rows"][1].__ior__({"c": 3}))), ("rows.insert(0, rows[2])", lambda c: c["rows"].insert(0, c["rows"][2])),
+             ("rows[0]['w'] = 5", lambda c: c["rows"][0].__setitem__("w", 5)), ("grid.append(grid[0])", lambda c: c["grid"].append(c["grid"][0])), ("grid[0].append(9)", lambda c: c["grid"][0].append(9)),
+             ("outer.setdefault('admin', {})['carol'] = 3", lambda c: c["outer"].setdefault("admin", {}).__setitem__("carol", 3)), ("outer.update(ops=outer['staff'])", lambda c: c["outer"].update(ops=c["outer"]["staff"])),
+             ("outer['ops']['dave'] = 4", lambda c: c["outer"]["ops"].__setitem__("dave", 4))]
+
+    def plain(v):
+        if isinstance(v, dict):
+            return {k: plain(x) for k, x in v.items()}
+        if isinstance(v, list):
+            return [plain(x) for x in v]
+        return v
+    live = {"outer": cfg.outer, "rows": cfg.rows, "grid": cfg.grid}
+    done = []
+    for label, do in steps:
+        done.append(label)
+        res.case(stable(["inner-sharing", label]), kind="queries:inner-sharing")
+        try:
+            do(live)
+            do(ref)
+        except Exception as e:  # noqa
+            res.violate("C17:container-differs:inner-sharing", "an operation on typed containers of containers raised %s" % type(e).__name__, {"stream": "inner-sharing", "history": done, "error": str(e)[:100]})
+            break
+        if plain(live) != plain(ref):
+            res.violate("C17:container-differs:inner-sharing", "typed dicts / lists held inside typed containers do not behave like the built-ins when the application makes an alias "
+                        "of an inner container", {"stream": "inner-sharing", "history": done, "typed": plain(live), "builtin": plain(ref)})
+            break
+    # (c)
+    lower = lambda cfg_, v: v.lower() if isinstance(v, str) else v                       # noqa
+    text = lambda cfg_, v: str(v) if not isinstance(v, (list, dict)) else (_ for _ in ()).throw(ValueError("no containers"))   # noqa
+    s = cc.Schema()
+    s.h = cc.DictField(cc.AnyField(validator=lower), cc.AnyField(validator=text), default=dict)
+    s.k = cc.DictField(cc.AnyField(validator=lower), cc.IntField(), default=dict)
+    cfg = s()
+    builtin = {}
+    ops = [("d = {'Accept': 1}", lambda d: d.update({"Accept": 1}), lambda b: b.update({"accept": "1"})), ("d['ACCEPT'] = 2.5", lambda d: d.__setitem__("ACCEPT", 2.5), lambda b: b.__setitem__("accept", "2.5")),
+           ("update(Host=False)", lambda d: d.update(Host=False), lambda b: b.update(host="False")), ("setdefault('X-New', 10)", lambda d: d.setdefault("X-New", 10), lambda b: b.setdefault("x-new", "10")),
+           ("setdefault('x-NEW', 11)", lambda d: d.setdefault("x-NEW", 11), lambda b: b.setdefault("x-new", "11")), ("|= {'HOST': ''}", lambda d: d.__ior__({"HOST": ""}), lambda b: b.__ior__({"host": ""})),
+           ("d['bad'] = [1] (refused)", lambda d: d.__setitem__("bad", [1]), lambda b: None), ("d[7] = 7", lambda d: d.__setitem__(7, 7), lambda b: b.__setitem__(7, "7"))]
+    d = cfg.h
+    for label, do_t, do_b in ops:
+        res.case(stable(["anyfield-validator", label]), kind="queries:anyfield-validator")
+        try:
+            rt = do_t(d)
+        except Exception:  # noqa
+            rt = "raised"
+        rb = do_b(builtin)
+        if dict(d) != builtin or (label.startswith("setdefault") and rt != rb) or type(d).__name__ != "DictProxy":
+            res.violate("C17:dict-differs:anyfield-validator", "a typed dict whose key / value field is an AnyField with a validator does not hold the normalised forms of what was put in",
+                        {"stream": "anyfield-validator", "after": label, "typed": repr(dict(d)), "builtin": repr(builtin)})
+            break
+    cfg.k = {"CPU": 2}
+    cfg.k["cpu"] = 4
+    cfg.k.update(Mem=8)
+    if dict(cfg.k) != {"cpu": 4, "mem": 8}:
+        res.violate("C17:dict-differs:anyfield-validator", "an AnyField(validator) key field does not normalise keys", {"stream": "anyfield-validator", "typed": repr(dict(cfg.k))})
+
+
 def run(ctx, n_quick=400, n_thorough=20000):
     res = Result()
     guard(res, "C17", list_stream, ctx, res, ctx.n(n_quick, n_thorough))
@@ -983,6 +1092,7 @@ def run(ctx, n_quick=400, n_thorough=20000):
     guard(res, "C17", string_iterable_stream, ctx, res)
     guard(res, "C17", shallow_and_reset_stream, ctx, res)
     guard(res, "C17", copydepth_stream, ctx, res, ctx.n(150, 5000))
+    guard(res, "C17", queries_and_inner_sharing_stream, ctx, res)
     return res
 
 
